@@ -172,6 +172,15 @@ def gen_amp(rng):
     fault_until = rng.choice([500, 2000, 6000])
     rebind = close = pause = 0
     nbytes = rng.choice([0, 1000, 20000])
+    if rng.random() < 0.3:
+        # handshake starvation: half of the datagrams are lost for several seconds, so the server
+        # spends its budget, runs into PTO after PTO and must stay silent at the limit
+        drop = rng.choice([400, 500, 600])
+        dup = rng.choice([0, 300, 600])
+        fault_until = rng.choice([4000, 6000, 9000])
+        chain = rng.choice([2, 4, 6])
+        delay = rng.choice([20, 50, 150])
+        return [seed, drop, dup, jitter, delay, chain, n_raw, mask, per, fault_until, 0, corrupt, 0, 0, 0]
     if rng.random() < 0.35:
         # the client moves to a new port mid-transfer, one datagram from there arrives, then silence;
         # the server application closes some time later
@@ -191,11 +200,15 @@ def fixed_amp(tier):
         [4, 0, 600, 0, 5, 6, 4, 2, 25, 2000, 1000, 0, 0, 0, 0],
         [5, 0, 0, 0, 20, 0, 0, 0, 0, 0, 40000, 0, 300, 1300, 30],   # rebinding, silence, server closes
         [6, 0, 0, 0, 5, 2, 1, 15, 5, 0, 40000, 0, 100, 4100, 20],
+        # handshake starvation: the server must stop at the 3x limit through PTO after PTO
+        [121074333754589, 600, 0, 0, 150, 2, 0, 8, 25, 4000, 0, 0, 0, 0, 0],
+        [140477015489208, 600, 0, 0, 20, 2, 4, 15, 10, 9000, 0, 0, 0, 0, 0],
+        [58434253564625, 500, 600, 10, 150, 6, 0, 15, 25, 6000, 0, 200, 0, 0, 0],
     ]
 
 
 def valid_amp(c):
-    return len(c) == AMP_LEN and all(v >= 0 for v in c) and c[1] <= 500 and c[5] <= 6 and c[6] <= 4 and c[8] <= 25 and c[12] <= 5000 and c[13] <= 20000 and c[14] <= 100
+    return len(c) == AMP_LEN and all(v >= 0 for v in c) and c[1] <= 600 and c[5] <= 6 and c[6] <= 4 and c[8] <= 25 and c[12] <= 5000 and c[13] <= 20000 and c[14] <= 100
 
 
 def nontrivial_amp(case, out):
